@@ -3,7 +3,7 @@
    (2) the shutdown ledger of a pool: which of its workers / helper threads exist after which operation.
    What each method does is read off the source (Gen/GenObserve.v). *)
 From Coq Require Import List Arith Lia Bool String.
-From Mpv Require Import GenObserve OrderHist.
+From Mpv Require Import GenStruct GenObserve OrderHist Routes.
 Import ListNotations.
 Open Scope nat_scope.
 
@@ -129,6 +129,9 @@ Definition lstep (l : ledger) (o : pop) : ledger :=
       (* a map call that raises -- a user exception, a timeout, a dead worker, KeyboardInterrupt at any point -- goes
          through terminate() before the exception leaves the call *)
       if map_call_terminates_on_any_exception && terminate_clears_everything && stop_handler_threads_joins_all_four &&
-         progress_bar_thread_started_under_mask
+         progress_bar_thread_started_under_mask &&
+         (* Routes.v: every statement of the call from which a worker can be alive is routed through a handler that
+            shuts the pool down; workers are started / joined only from such statements *)
+         every_protected_position_shuts_down && workers_only_touched_under_protection && handle_exception_shuts_down
       then mkL 0 0 false else l
   end.
